@@ -275,8 +275,9 @@ class FlatRef(Ref):
     """single global integer index; the numbering tables come from the (verified bijective) flat maps of the
     grid under test at each level, everything else from the underlying reference model"""
 
-    def __init__(self, under):
+    def __init__(self, under, ordering="nest"):
         self.under = under
+        self.ordering = ordering
         self.depth = under.depth
         self.i2f = [None] * (under.depth + 1)      # linear id of the structured index -> flat index
         self.f2i = [None] * (under.depth + 1)
@@ -434,7 +435,7 @@ def build(d):
         return G.MGrid(*[p[0] for p in parts]), MRef([p[1] for p in parts])
     if k == "flat":
         g, r = build(d["grid"])
-        return G.FlatGrid(g, ordering=d["ordering"]), FlatRef(r)
+        return G.FlatGrid(g, ordering=d["ordering"]), FlatRef(r, d["ordering"])
     if k == "sparse":
         g, r = build(d["grid"])
         maps = sparse_mappings(r, d["sel"])
@@ -568,6 +569,20 @@ def verify_flat_maps(grid, ref, dd):
         inv = np.empty(n, dtype=np.int64)
         inv[f[0]] = np.arange(n)
         fr.f2i[l] = inv
+    if fr.ordering == "nest":
+        # nested numbering (what `resort` of a nest FlatGrid and every SparseGrid mapping rely on): the children of
+        # flat index f are f*K .. f*K+K-1, K = number of children
+        for l in range(un.depth):
+            k = un.nchildren(l)
+            rr = un.refined(l)
+            f = fr.flat(l, rr)
+            ch = un.children(l, rr)
+            fc = np.sort(fr.flat(l + 1, ch.reshape(ch.shape[0], -1)).reshape(rr.shape[1], k), axis=1)
+            want = f[:, None] * k + np.arange(k)[None, :]
+            if not np.array_equal(fc, want):
+                b = first_bad((fc != want).any(axis=1))
+                raise Violation("nest_numbering_not_nested", f"level {l}: index {rr[:, b[0]].tolist()} has flat index "
+                                f"{int(f[b[0]])} but its {k} children have flat indices {fc[b[0]].tolist()} {dd}")
     if isinstance(ref, SparseRef):
         for l in range(ref.depth + 1):
             sa = grid.at(l)
@@ -1070,7 +1085,7 @@ def _wrap_variants(base, periodic):
     return out
 
 
-SWEEP_SHARDS = 8
+SWEEP_SHARDS = 4
 
 
 def _cluster_for_shards(families, shards):
@@ -1150,7 +1165,20 @@ def sweep_cases(tier, seed):
             for i, d in enumerate(var):
                 fam_2.append({"desc": d, "windows": [[3, 2] if i % 2 else [2, 3]], "probes": [s0[0] + 2 * s0[1]], "tier": tier,
                             "batch": i == 0 and (s0[0] + sp[1]) % 2 == 0})
-    return _cluster_for_shards([fam_p, fam_o, fam_2], SWEEP_SHARDS)
+    # sparse selections of small 1-D / 2-D periodic grids
+    fam_s = []
+    sels = [[[0, 2], [0], [1]], [[0, 1, 3], [1, 2], [0, 3]], [[1], [0, 1], [2]]]
+    for n0 in (2, 3, 4):
+        for depth in (1, 2):
+            for sp in itertools.product([2, 3], repeat=depth):
+                for si, sel in enumerate(sels):
+                    base = {"k": "grid", "shape0": [n0], "splits": [[x] for x in sp]}
+                    if (n0 + si) % 3 == 0:
+                        base = {"k": "grid", "shape0": [n0, 2], "splits": [[x, 1 + (x + si) % 2] for x in sp]}
+                    fam_s.append({"desc": {"k": "sparse", "grid": base, "sel": sel[:depth + 1]},
+                                  "windows": [[3] * len(base["shape0"])], "probes": [n0 + si], "tier": tier,
+                                  "batch": "single" if si == 0 else False})
+    return _cluster_for_shards([fam_p, fam_o, fam_2, fam_s], SWEEP_SHARDS)
 
 
 def hp_cases(tier, seed):
@@ -1158,8 +1186,7 @@ def hp_cases(tier, seed):
     jhealpix kernels are traced for few shapes)"""
     hp = lambda n0, sp, **kw: dict({"k": "hp", "nside0": n0, "splits": sp}, **kw)   # noqa: E731
     descs = []
-    for n0, sp in [(1, []), (1, [4]), (1, [4, 4]), (2, [4]), (2, []), (1, [16]), (1, [1, 4]), (1, [4, 1]), (2, [1]),
-                   (1, [1, 16])]:
+    for n0, sp in [(1, []), (1, [4]), (1, [4, 4]), (2, [4]), (1, [16]), (1, [1, 4]), (1, [4, 1]), (2, [1])]:
         descs.append(hp(n0, sp))
     descs.append(hp(1, [4, 4], plain=False))
     flats = [{"k": "flat", "grid": hp(1, [4, 4]), "ordering": "serial"},
@@ -1184,10 +1211,10 @@ def hp_cases(tier, seed):
     if tier != "quick":
         descs += [hp(4, [4]), hp(2, [4, 4]), hp(8, []), hp(1, [16, 4]), hp(4, [1, 4])]
         prods += [{"k": "mgrid", "grids": [hp(1, [4, 4]), g1]},
-                  {"k": "mgrid", "grids": [g1, hp(2, [4, 4])]},
+                  {"k": "mgrid", "grids": [g1, hp(1, [4, 4])]},
                   {"k": "hplogr", "nside0": 1, "depth": 2, "rn": 3, "rmin": 0.5, "rmax": 2.0, "rw": 3},
                   {"k": "hpblogr", "nside0": 1, "depth": 2, "rn": 3, "rmin": 0.5, "rlin": 0.5, "rmax": 4.0, "rw": 3},
-                  {"k": "hplogr", "nside0": 2, "depth": 2, "rn": 6, "rmin": 1.0, "rmax": 100.0, "rw": 3}]
+                  {"k": "hplogr", "nside0": 2, "depth": 1, "rn": 6, "rmin": 1.0, "rmax": 100.0, "rw": 3}]
     out = []
     for i, d in enumerate(descs + flats + prods):
         na = _axes_of(d if d["k"] not in ("flat", "sparse") else d["grid"])
@@ -1195,7 +1222,7 @@ def hp_cases(tier, seed):
         w9 = [9 if h else 3 for h in hpa]
         w1 = [1 if h else (2 + (i % 3)) for h in hpa]
         assert len(w9) == na
-        out.append({"desc": d, "windows": [w9, w1] if i % 2 == 0 else [w9], "probes": [7 * i + 1], "tier": tier,
+        out.append({"desc": d, "windows": [w9, w1] if i % 4 == 0 else [w9], "probes": [7 * i + 1], "tier": tier,
                     "batch": "all" if i % 5 == 0 else ("single" if i % 2 == 0 else False)})
     return out
 
@@ -1205,21 +1232,21 @@ def hp_all_cases(tier, seed):
 
 
 SUBS = [
+    Sub(name="healpix", check=check_desc, cases=hp_cases, exhaustive=False, shards=6, jax=True, budget_quick=120.0,
+        rule="fixed list: HEALPixGrid nside0 in {1,2}, splits from {1,4,16} (nside<=4), FlatGrid serial/nest and "
+             "SparseGrid over it, MGrid products with a periodic / an open axis in both orders (also flattened), "
+             "HPLogRGrid and HPBrokenLogRGrid; windows 9 (vs ducc0 neighbours) and 1; non-trivial as above"),
     Sub(name="sweep", check=check_desc, cases=sweep_cases, exhaustive=True, shards=SWEEP_SHARDS, jax=True,
         rule="EXHAUSTIVE: every 1-D Grid (shape0 1..4, depth 0..2, splits in {1,2,3,4}), every valid 1-D OpenGrid "
              "(shape0 1..5, depth 0..2, splits in {1,2,3}, paddings in {0,1,2}), every 2-D Grid (shape0 in {1,2,3}^2, "
              "one level, splits in {1,2,3}^2), each plain, as FlatGrid serial and (periodic) FlatGrid nest (2-D: one "
-             "of the two orderings, alternating); windows "
+             "of the two orderings, alternating), plus 54 SparseGrid selections of small 1-D/2-D grids; windows "
              "2..5; all indices of all levels; non-trivial = depth>=1, >=2 refined indices, >=2 children per index"),
-    Sub(name="dense_random", check=check_desc, strategy=dense_recipes, quick=420, thorough=20000, shards=12, jax=True,
+    Sub(name="dense_random", check=check_desc, strategy=dense_recipes, quick=150, thorough=4000, shards=5, jax=True,
         rule="random Grid/OpenGrid (1-3 axes)/SimpleOpenGrid (1-2 axes, windows 1..5, scalar/per-axis/per-level "
-             "splits, distances, given or factory-chosen depth)/LogGrid/BrokenLogGrid, MGrid products of 2-3 of them, wrapped as FlatGrid serial/"
-             "nest or SparseGrid (valid mappings from the nest rule); depth 0..3, <=~500 indices per level; 1-2 "
+             "splits, distances, given or factory-chosen depth)/LogGrid/BrokenLogGrid, MGrid products of 2-3 of them, "
+             "wrapped as FlatGrid serial/nest or SparseGrid (valid mappings from the nest rule); depth 0..3, <=~500 indices per level; 1-2 "
              "window tuples with entries 1..5; all indices of all levels; non-trivial as above"),
-    Sub(name="healpix", check=check_desc, cases=hp_cases, exhaustive=False, shards=6, jax=True, budget_quick=200.0,
-        rule="fixed list: HEALPixGrid nside0 in {1,2}, splits from {1,4,16} (nside<=4), FlatGrid serial/nest and "
-             "SparseGrid over it, MGrid products with a periodic / an open axis in both orders (also flattened), "
-             "HPLogRGrid and HPBrokenLogRGrid; windows 9 (vs ducc0 neighbours) and 1; non-trivial as above"),
     Sub(name="healpix_all_window", check=check_hp_all, cases=hp_all_cases, exhaustive=True, shards=1, jax=True,
         rule="HEALPix neighbourhood with window == size ('all neighbours') is a permutation of all pixels for every "
              "pixel, window 1 is the pixel itself; nside 1, 2"),
